@@ -380,6 +380,29 @@ func pool64(t *rapid.T, prop string, structural bool) {
 			}
 			noteRange(s, e)
 		},
+		"andNotOwnPrefix": func(t *rapid.T) {
+			// in-place difference with a copy of x's own first k buckets (+ optionally a value beyond x's
+			// last bucket): whole leading buckets are emptied and dropped, the surviving ones move down
+			x := pick(t, "x")
+			bk := bucketsOf(x.m)
+			if len(bk) < 2 || x.m.Card() > 400000 {
+				t.Skip("needs two (small) buckets")
+			}
+			var keys []uint64
+			for k := range bk {
+				keys = append(keys, k)
+			}
+			sortU64(keys)
+			k := rapid.IntRange(1, len(keys)-1).Draw(t, "k")
+			ym := x.m.Window(0, keys[k]<<32-1)
+			if rapid.Bool().Draw(t, "beyond") && keys[len(keys)-1] < 0xFFFFFFFF {
+				ym.Add((keys[len(keys)-1]+1)<<32 + 3)
+			}
+			y := build64(t, "prefix", ym)
+			log("#%d.AndNot(first %d buckets of itself)", x.id, k)
+			x.b.AndNot(y)
+			x.m = model.AndNot(x.m, ym)
+		},
 		"SetCopyOnWrite": func(t *rapid.T) {
 			x := pick(t, "x")
 			v := rapid.Bool().Draw(t, "on")
